@@ -18,7 +18,7 @@ FAMILIES = {
    why_open="pinned by tests/codec/ber/test_encoder.py RealEncoderTestCase.testChar",
    zone=['emu:real-nr3-nodot']),
  'time-fraction-zeros': dict(
-   what="CER/DER canonicalisation of GeneralizedTime deletes every 0 among the first fraction digits, not only trailing ones (.105 -> .15, .005 -> .5), changing the instant",
+   what="CER/DER canonicalisation of GeneralizedTime deletes every 0 among the first four fraction digits, not only trailing ones (.105 -> .15, .005 -> .5), changing the instant, and leaves trailing zeros beyond the fourth digit in place",
    why_open="pinned by tests/codec/cer/test_encoder.py GeneralizedTimeEncoderTestCase.testWithSubsecondsWithZeros, which asserts .099 -> .99",
    zone=['emu:time-fraction-zeros']),
  'real-default-float': dict(
@@ -112,7 +112,23 @@ ENTRIES.append(('C16', 'real-nr3-nodot', ['der:real-nr3-nodot'], "('c16', ('real
 
 ENTRIES.append(('C16', 'time-fraction-zeros', ['der:time-fraction-zeros'], "('c16', ('tag', 'E', 'P', 9, ('useful', 'GeneralizedTime')), '20000915230957.05Z', 'DER', 'e914181232303030303931353233303935372e30355a')"))
 
+ENTRIES.append(('C20', 'time-fraction-zeros', ['time-fraction-zeros'], "('c20-str', 'GeneralizedTime', '197008280053.020Z', 'CER')"))
+
 EXTRA = [
+ {'id': 'KF-C17-emptyable-optional-object-side', 'status': 'open', 'property': 'C17',
+  'symptom': ['bare:*:bytes-differ', 'native:value-differs:*'], 'zone': ['absent-optional-emptyable-record'],
+  'what': FAMILIES['emptyable-optional']['what'] + ' -- seen here as: the value object gains a present-and-empty component the Python tree (rightly) lacks, so the two encodings differ and the native round trip returns an extra empty member',
+  'why_open': FAMILIES['emptyable-optional']['why_open'],
+  'witness': "('c17', ('seq', (('f0', ('seq', (('g', ('int',), 'opt', None),)), 'opt', None),)), {}, 'BER:derived')"},
+ {'id': 'KF-C17-default-constructed-bare', 'status': 'open', 'property': 'C17',
+  'symptom': ['bare:*:bytes-differ', 'bare:*:raised:*'], 'zone': ['default-constructed'],
+  'what': FAMILIES['default-constructed']['what'] + ' -- for a bare Python mapping/list the comparison with a constructed DEFAULT never holds, so the member is always written',
+  'why_open': FAMILIES['default-constructed']['why_open'],
+  'witness': "('c17', ('seq', (('f0', ('seq', (('x', ('int',), 'req', None),)), 'def', {'x': 1}),)), {'f0': {'x': 1}}, 'DER:derived')"},
+ {'id': 'KF-C17-default-choice-bare', 'status': 'open', 'property': 'C17',
+  'symptom': ['bare:*:bytes-differ', 'bare:*:raised:*'], 'zone': ['default-choice'],
+  'what': FAMILIES['default-choice']['what'], 'why_open': FAMILIES['default-choice']['why_open'],
+  'witness': "('c17', ('seq', (('f0', ('choice', (('a0', ('int',)),)), 'def', ('a0', 1)),)), {'f0': ('a0', 1)}, 'DER:derived')"},
  {'id': 'KF-C10-noncanonical-time-accepted', 'status': 'open', 'property': 'C10',
   'symptom': ['accepted-value-not-encodable:library'], 'zone': ['accepted-noncanonical-time'],
   'what': "the CER and DER decoders do not validate GeneralizedTime/UTCTime contents (no Z, local offsets, wrong length, comma or trailing zeros in the fraction are all accepted), while the CER/DER encoders refuse exactly those strings: a decoder-accepted value that the same codec's encoder rejects",
